@@ -4,9 +4,12 @@ import json, re
 D = "/verif/DESIGN.md"
 s = open(D).read()
 out = []
+in_summary = True  # only the table of section 0 is rewritten
 for line in s.split("\n"):
+    if line.startswith("## 1."):
+        in_summary = False
     m = re.match(r"^\| (C\d\d) \|", line)
-    if m:
+    if m and in_summary:
         try:
             e = json.load(open("/verif/evidence/%s.json" % m.group(1)))
             cov = e["coverage"]
